@@ -315,13 +315,18 @@ def show(v):
 
 class Analyzer:
     def __init__(self, prog, f, entry_state=None, call_summary=None, field_summary=None, global_tables=True,
-                 havoc_fields_on_call=True, load_hook=None, diffs=()):
+                 havoc_fields_on_call=True, load_hook=None, diffs=(), ghosts=None):
+        # ghosts: name -> {varkey: coef}: tracks  sum(coef*var) - (its value at entry)  as a linear
+        # form  const-interval + symbolic terms  (so that  len -= b; data += b  cancels exactly)
+        self.ghosts = dict(ghosts or {})
         # diffs: pairs (kx, ky) of variable keys whose difference x - y is tracked as a ghost variable
         self.diffs = set(diffs)
         self.prog = prog
         self.f = f
         self.cf = cfgm.CFG(f)
         self.entry_state = dict(entry_state or {})
+        for g in self.ghosts:
+            self.entry_state[('ghost', g)] = (const(0), ())
         self.call_summary = call_summary
         self.field_summary = field_summary or {}
         self.load_hook = load_hook
@@ -332,6 +337,7 @@ class Analyzer:
         self._facts_cache = {}
         self._wcount = {}
         self._pending_rhs = None
+        self._pending_lin = None
         self._pending_rel = None
         self._loop_cache = {}
         self.cur_block = None
@@ -571,6 +577,63 @@ class Analyzer:
             return TOP
         return TOP
 
+    def ghost_value(self, st, name):
+        """interval of the ghost linear form in state st"""
+        g = st.get(('ghost', name))
+        if g is None:
+            return TOP
+        v = g[0]
+        for key, coef in g[1]:
+            val = st.get(key)
+            if val is None:
+                val = self._key_range(key)
+            v = add(v, mul(val, const(coef)))
+        return v
+
+    def _ghost_update(self, st, vk, lin):
+        """variable vk is about to change; lin describes new-old: ('const', iv) | ('var', key, sign) | None"""
+        if not self.ghosts:
+            return st
+        for name, coefs in self.ghosts.items():
+            gk = ('ghost', name)
+            g = st.get(gk)
+            if g is None:
+                continue
+            c, terms = g
+            terms = dict(terms)
+            # a symbolic term over vk refers to its old value: concretise it now
+            if vk in terms:
+                val = st.get(vk)
+                if val is None:
+                    val = self._key_range(vk)
+                c = add(c, mul(val, const(terms.pop(vk))))
+            a = coefs.get(vk)
+            if a:
+                if lin is None:
+                    c = TOP
+                    terms = {}
+                elif lin[0] == 'const':
+                    c = add(c, mul(lin[1], const(a)))
+                else:
+                    k2, sg = lin[1], lin[2]
+                    terms[k2] = terms.get(k2, 0) + a * sg
+                    if terms[k2] == 0:
+                        del terms[k2]
+            st[gk] = (c, tuple(sorted(terms.items())))
+        return st
+
+    def _lin_of(self, target, op, e, st):
+        """new-old of `target op= e` for ghost tracking"""
+        sg = 1 if op == '+' else -1
+        v = sx.int_val(e)
+        if v is not None:
+            return ('const', const(sg * v))
+        k = self.varkey(sx.strip(e))
+        if k is not None and k[0] in ('local', 'param') and k != target and k not in self._addr_taken:
+            return ('var', k, sg)
+        val = self.ev(e, st)
+        return ('const', val if sg == 1 else neg(val))
+
     def _diffkey(self, x, y):
         if not self.diffs:
             return None
@@ -587,7 +650,7 @@ class Analyzer:
         if b is None:
             return None
         kx, ky = sx.key(sx.strip(x)), sx.key(sx.strip(y))
-        if kx is None or ky is None or kx[0] not in ('param', 'local') or ky[0] not in ('param', 'local'):
+        if kx is None or ky is None or kx[0] in ('int',) or ky[0] in ('int',):
             return None
         facts = self._facts_cache.get(b)
         if facts is None:
@@ -807,6 +870,26 @@ class Analyzer:
             vk = self.varkey(x0)
             if vk is None and sx.kind(x0) == 'bin' and x0[1] == '-':
                 vk = self._diffkey(x0[2], x0[3])
+            if vk is None and sx.kind(x0) == 'bin' and x0[1] == '*' and o in ('<', '<='):
+                # a*b <= c with a,b >= 1: each factor <= c / lo(other)
+                yv = self.ev(y, out)
+                if yv and hi(yv) < INF:
+                    cmax = hi(yv) - (1 if o == '<' else 0)
+                    for p_, q_ in ((x0[2], x0[3]), (x0[3], x0[2])):
+                        pk = self.varkey(sx.strip(p_))
+                        while pk is None and sx.kind(sx.strip_paren(p_)) == 'cast' and self._cast_transparent(sx.strip_paren(p_), out):
+                            p_ = sx.strip_paren(p_)[4]
+                            pk = self.varkey(sx.strip(p_))
+                        qv = self.ev(q_, out)
+                        pv = self.ev(p_, out)
+                        if pk is not None and qv and lo(qv) >= 1 and lo(pv) >= 0 and cmax >= 0:
+                            newp = meet(pv, mk(-INF, cmax // lo(qv)))
+                            if not newp:
+                                return None
+                            if newp != pv:
+                                out = dict(out)
+                                out[pk] = newp
+                continue
             if vk is None:
                 continue
             cur = self.ev(x0, out)
@@ -852,6 +935,12 @@ class Analyzer:
             if k[0] == 'rel':
                 if a[k] == b[k]:
                     out[k] = a[k]
+                continue
+            if k[0] == 'ghost':
+                if a[k][1] == b[k][1]:
+                    out[k] = (join(a[k][0], b[k][0]), a[k][1])
+                else:
+                    out[k] = (join(self.ghost_value(a, k[1]), self.ghost_value(b, k[1])), ())
                 continue
             out[k] = join(a[k], b[k])
         return out
@@ -913,6 +1002,14 @@ class Analyzer:
                 out[k] = o
                 continue
             if k[0] == 'rel':
+                continue
+            if k[0] == 'ghost':
+                ov = self.ghost_value(old, k[1]) if o[1] != n[1] else o[0]
+                nv = self.ghost_value(new, k[1]) if o[1] != n[1] else n[0]
+                j = join(ov, nv)
+                l_ = lo(j) if lo(j) >= lo(ov) else -INF
+                h_ = hi(j) if hi(j) <= hi(ov) else INF
+                out[k] = (mk(l_, h_), o[1] if o[1] == n[1] else ())
                 continue
             if assigned is not None and k[0] in ('local', 'param') and k not in assigned and k not in self._addr_taken:
                 # not assigned inside the loop: its value at the head can only change because the
@@ -1011,6 +1108,11 @@ class Analyzer:
             self._pending_rel = self._minmax_rel(e[2])
             self._pending_rhs = e[2]
             r = sx.strip(e[2])
+            self._pending_lin = None
+            if self.ghosts:
+                tk = self.varkey(e[1])
+                if tk is not None and sx.kind(r) == 'bin' and r[1] in ('+', '-') and sx.key(sx.strip(r[2])) == sx.key(sx.strip_paren(e[1])):
+                    self._pending_lin = self._lin_of(tk, r[1], r[3], st)
             if self.diffs and sx.kind(r) == 'bin' and r[1] in ('+', '-') and sx.key(sx.strip(r[2])) == sx.key(sx.strip_paren(e[1])):
                 d = self.ev(r[3], st)
                 self._pending_delta = d if r[1] == '+' else neg(d)
@@ -1018,6 +1120,7 @@ class Analyzer:
             self._pending_delta = None
             self._pending_rel = None
             self._pending_rhs = None
+            self._pending_lin = None
             return out
         if k == 'cassign':
             st = self._effects(e[3], st)
@@ -1029,8 +1132,14 @@ class Analyzer:
             if self.diffs and e[1] in ('+', '-'):
                 d = self.ev(e[3], st)
                 self._pending_delta = d if e[1] == '+' else neg(d)
+            self._pending_lin = None
+            if self.ghosts and e[1] in ('+', '-'):
+                tk = self.varkey(e[2])
+                if tk is not None:
+                    self._pending_lin = self._lin_of(tk, e[1], e[3], st)
             out = self._store(e[2], v, st)
             self._pending_delta = None
+            self._pending_lin = None
             return out
         if k == 'inc':
             st = self._effects_lvalue(e[3], st)
@@ -1038,8 +1147,10 @@ class Analyzer:
                 return None
             v = add(self.ev(e[3], st), const(1 if e[1] == '++' else -1))
             self._pending_delta = const(1 if e[1] == '++' else -1)
+            self._pending_lin = ('const', const(1 if e[1] == '++' else -1))
             out = self._store(e[3], v, st)
             self._pending_delta = None
+            self._pending_lin = None
             return out
         if k == 'bin' and e[1] in ('&&', '||'):
             st1 = self._effects(e[2], st)
@@ -1073,6 +1184,8 @@ class Analyzer:
         lv = sx.strip_paren(lv)
         vk = self.varkey(lv)
         st = dict(st)
+        if vk is not None and self.ghosts:
+            st = self._ghost_update(st, vk, getattr(self, '_pending_lin', None))
         if vk is not None:
             for k2 in list(st):
                 if k2[0] == 'rel' and (k2[1] == vk or st[k2][2] == vk):
@@ -1155,6 +1268,11 @@ class Analyzer:
                 # array/pointer argument: its summary cell may be written
                 killed.append(('cell', sx.key(a0)))
                 killed.append(('deref', sx.key(a0)))
+            elif sx.kind(a0) == 'bin' and sx.A(a0).get('ptr'):
+                r0, _ = sx.lvalue_root(a0)
+                if sx.kind(r0) in ('local', 'param'):
+                    killed.append(('cell', sx.key(r0)))
+                    killed.append(('deref', sx.key(r0)))
         if killed or (not pure and self.havoc_fields_on_call):
             st2 = dict(st)
             for k2 in list(st2):
@@ -1250,7 +1368,7 @@ class Analyzer:
                 if old is not None:
                     nn = {}
                     for k in new:
-                        if k[0] == 'rel':
+                        if k[0] in ('rel', 'ghost'):
                             nn[k] = new[k]
                         elif k in old:
                             m = meet(old[k], new[k])
